@@ -56,6 +56,7 @@ var properties = map[string][]harnessSpec{
 		{Name: "play.VerifC07Texts", Quick: map[string]int{"C07.maxText": 3}, Thorough: map[string]int{"C07.maxText": 6}, Marks: end},
 		{Name: "play.VerifC07Dynamics", Marks: end},
 		{Name: "midix.VerifC08File", Quick: map[string]int{"C08.maxOps": 2, "C08.maxTracks": 2, "C08.maxKeys": 1}, Thorough: map[string]int{"C08.maxOps": 2, "C08.maxTracks": 2, "C08.maxKeys": 2}, Marks: end},
+		{Name: "cmd.VerifC01FlagOverride", Marks: end},
 		{Name: "cmd.VerifC07BPMFlag", Quick: map[string]int{"C07.bpmDigits": 3}, Thorough: map[string]int{"C07.bpmDigits": 4}, Marks: []string{"end", "flag-absent", "flag-given"}},
 		{Name: "play.VerifC07Defaults", Marks: end},
 	},
